@@ -291,6 +291,14 @@ pub fn run_c14(tier: &str, seed: u64) -> Report {
         vec![ClaimOp::Set(Claim::Native("unit".into(), Native::Unit)), ClaimOp::Set(Claim::Native("none".into(), Native::OptNone))],
         vec![ClaimOp::Remove("never-set".into())],
     ];
+    let mut corners = corners;
+    // keys that collide under common hashes / truncations: both members of a pair in one builder, in both orders, and all at once
+    let pairs = gens::colliding_key_pairs();
+    for (a, b) in &pairs {
+        corners.push(vec![ClaimOp::Set(Claim::Custom(a.clone(), json!(1))), ClaimOp::Set(Claim::Custom(b.clone(), json!("two")))]);
+        corners.push(vec![ClaimOp::Set(Claim::Custom(b.clone(), json!(1))), ClaimOp::Set(Claim::Custom(a.clone(), json!("two"))), ClaimOp::Remove(b.clone())]);
+    }
+    corners.push(pairs.iter().flat_map(|(a, b)| [ClaimOp::Set(Claim::Custom(a.clone(), json!(a))), ClaimOp::Set(Claim::Custom(b.clone(), json!(b)))]).collect());
     let mut r = Report::new();
     for ops in corners {
         c14_eval(&C14Case { p: P::V4L, key: key.clone(), ops }, &mut r);
@@ -411,7 +419,7 @@ pub fn replay_c14(case: &Value) -> Report {
     r
 }
 
-pub const RULE_C14: &str = "seeded random histories of 0..12 (every 16th: 0..60) set_claim/remove_claim/extend_claims operations on GenericBuilder (20000 on v4.local, 250-1500 on each other protocol; thorough 2e6 / 1e4-1.5e5) plus a fixed corner catalogue: keys = non-empty Unicode (escapes, NUL, non-BMP, 200-byte keys, near-reserved names, keys equal to a member name inside their own value); values = JSON trees of depth <= 5 (i64/u64 extremes, exact short decimals, empty containers, null), native Rust values through Serialize (structs, tuples, Option, Vec, BTreeMap, enums, char, bytes) and registered claims through their typed constructors; the token is parsed back with a validator-free GenericParser and the whole object compared (serde_json equality) with a model map (last write wins, remove deletes) built by the harness. Plus multi-build histories (1500 on v4.local, 30-150 elsewhere; thorough 4e4): ONE GenericBuilder is driven through 3-17 set/remove/footer/assertion/build steps and EVERY token it emits must equal the model at that point. distinct_nontrivial = distinct (protocol, #ops, #sets, #members, value-shape signature) that built, parsed and compared equal";
+pub const RULE_C14: &str = "seeded random histories of 0..12 (every 16th: 0..60) set_claim/remove_claim/extend_claims operations on GenericBuilder (20000 on v4.local, 250-1500 on each other protocol; thorough 2e6 / 1e4-1.5e5) plus a fixed corner catalogue: keys = non-empty Unicode (escapes, NUL, non-BMP, 200-byte keys, near-reserved names, keys equal to a member name inside their own value, and ~45 pairs of different keys that collide under FNV-1/1a, the 31-multiplier hash, djb2, CRC-32, byte sums, truncation to 8..256 bytes or to u8/u16 characters, NFC/NFD, embedded NUL); values = JSON trees of depth <= 5 (i64/u64 extremes, exact short decimals, empty containers, null), native Rust values through Serialize (structs, tuples, Option, Vec, BTreeMap, enums, char, bytes) and registered claims through their typed constructors; the token is parsed back with a validator-free GenericParser and the whole object compared (serde_json equality) with a model map (last write wins, remove deletes) built by the harness. Plus multi-build histories (1500 on v4.local, 30-150 elsewhere; thorough 4e4): ONE GenericBuilder is driven through 3-17 set/remove/footer/assertion/build steps and EVERY token it emits must equal the model at that point. distinct_nontrivial = distinct (protocol, #ops, #sets, #members, value-shape signature) that built, parsed and compared equal";
 
 // ==========================================================================================
 // C15
@@ -427,7 +435,14 @@ pub struct C15Case {
     pub layer: Layer,
     pub default_parser: bool,
     pub class: String,
+    /// when set: the token is sealed at the CORE layer around this text (a payload that is valid JSON but not an object —
+    /// what another implementation or the core builder can produce); `s` is empty then: every expected claim is absent
+    #[serde(default)]
+    pub raw_payload: Option<String>,
 }
+
+/// authentic tokens whose payload is JSON but not an object: no claim is present in them
+pub const NON_OBJECT_PAYLOADS: [&str; 10] = ["[]", "[\"aud\",\"customers\"]", "\"aud\"", "137", "true", "null", "[{\"aud\":\"customers\",\"k\":1}]", "\"{\\\"aud\\\":\\\"customers\\\"}\"", "0.5", "[[]]"];
 
 #[derive(Debug, PartialEq)]
 enum Disc {
@@ -562,7 +577,11 @@ fn open_c15(c: &C15Case, tok: &str) -> Out<Value> {
 
 fn c15_eval(c: &C15Case, r: &mut Report) {
     r.evaluations += 1;
-    let tok = match generic_seal(c.p, &c.key, &c.s, None, None).0 {
+    let sealed = match &c.raw_payload {
+        Some(text) => core_seal(c.p, &c.key, &[0x5a; 32], text, None, None).0,
+        None => generic_seal(c.p, &c.key, &c.s, None, None).0,
+    };
+    let tok = match sealed {
         Out::Ok(t) => t,
         o => {
             r.inconclusive.push(format!("C15: could not build the token: {}", o.brief()));
@@ -580,11 +599,17 @@ fn c15_eval(c: &C15Case, r: &mut Report) {
 /// mutate a JSON value into something unequal of the given kind
 fn perturb(v: &Value, rng: &mut Rng) -> (Value, &'static str) {
     match v {
-        Value::String(s) => match rng.below(4) {
+        Value::String(s) => match rng.below(9) {
             0 => (json!(s.to_uppercase() + if s.to_uppercase() == *s { "x" } else { "" }), "case"),
             1 => (json!(format!("{} ", s)), "trailing-space"),
             2 => (json!(s.len()), "type"),
-            _ => (json!(format!("{}\0", s)), "nul-suffix"),
+            3 => (json!(format!("{}\0", s)), "nul-suffix"),
+            // one value a proper prefix of the other with a length difference that a narrow integer loses
+            4 => (json!(format!("{}{}", s, "a".repeat(256))), "extended-by-256-bytes"),
+            5 => (json!(format!("{}{}", s, "a".repeat(512))), "extended-by-512-bytes"),
+            6 => (json!(format!("{}{}", s, "a".repeat(65536))), "extended-by-65536-bytes"),
+            7 if s.len() > 256 && s.is_char_boundary(s.len() - 256) => (json!(s[..s.len() - 256].to_string()), "shortened-by-256-bytes"),
+            _ => (json!(format!("{}x", s)), "one-byte-longer"),
         },
         Value::Number(n) => {
             if let Some(i) = n.as_i64() {
@@ -644,6 +669,7 @@ fn c15_token_claims(rng: &mut Rng, allow_time: bool) -> Vec<ClaimOp> {
             5 => Claim::Custom(format!("n{}", i), json!(rng.below(100) as i64)),
             6 => Claim::Custom(format!("b{}", i), json!(rng.chance(1, 2))),
             7 => Claim::Custom(format!("o{}", i), gens::json_tree(rng, 2)),
+            _ if rng.chance(1, 5) => Claim::Custom(format!("s{}", i), json!(format!("{}{}", rng.utf8_1upto(8), "a".repeat(256 + 256 * rng.below(2))))),
             _ => Claim::Custom(format!("s{}", i), json!(rng.utf8_1upto(8))),
         };
         if seen.insert(c.key().to_string()) {
@@ -761,22 +787,46 @@ pub fn run_c15(tier: &str, seed: u64) -> Report {
         }
         for (layer, dp) in [(Layer::Generic, false), (Layer::Batteries, false), (Layer::Batteries, true)] {
             for (e, class) in &variants {
-                let c = C15Case { p, key: key.clone(), s: s.clone(), e: e.clone(), layer, default_parser: dp, class: class.clone() };
+                let c = C15Case { p, key: key.clone(), s: s.clone(), e: e.clone(), layer, default_parser: dp, class: class.clone(), raw_payload: None };
                 c15_eval(&c, r);
                 if layer == Layer::Generic && j % 3 == 0 {
                     // the same expectations registered through one extend_check_claims(map) call
-                    let c = C15Case { p, key: key.clone(), s: s.clone(), e: e.clone(), layer, default_parser: dp, class: format!("{} [extend_check_claims]", class) };
+                    let c = C15Case { p, key: key.clone(), s: s.clone(), e: e.clone(), layer, default_parser: dp, class: format!("{} [extend_check_claims]", class), raw_payload: None };
                     c15_eval(&c, r);
                     r.count("expectations registered through extend_check_claims");
                 }
             }
-            let c = C15Case { p, key: key.clone(), s: s_null.clone(), e: vec![Claim::Custom("nullish".into(), Value::Null)], layer, default_parser: dp, class: "expected-null-present-null".into() };
+            let c = C15Case { p, key: key.clone(), s: s_null.clone(), e: vec![Claim::Custom("nullish".into(), Value::Null)], layer, default_parser: dp, class: "expected-null-present-null".into(), raw_payload: None };
             c15_eval(&c, r);
-            let c = C15Case { p, key: key.clone(), s: s_null.clone(), e: vec![Claim::Custom("nullish".into(), json!(1))], layer, default_parser: dp, class: "expected-value-present-null".into() };
+            let c = C15Case { p, key: key.clone(), s: s_null.clone(), e: vec![Claim::Custom("nullish".into(), json!(1))], layer, default_parser: dp, class: "expected-value-present-null".into(), raw_payload: None };
             c15_eval(&c, r);
         }
     });
     total.merge(r);
+
+    // ---- authentic tokens whose payload is JSON but NOT an object (core builder / another implementation): every expected
+    // claim is absent from them, so every expectation must fail as missing
+    let mut rn = Report::new();
+    for &p in &ALL {
+        let key = pools.key(p, 0);
+        for (layer, dp) in [(Layer::Generic, false), (Layer::Batteries, false), (Layer::Batteries, true)] {
+            for (ti, text) in NON_OBJECT_PAYLOADS.iter().enumerate() {
+                if p == P::V1P && ti % 3 != 0 {
+                    continue;
+                }
+                for e in [vec![Claim::Aud("customers".into())], vec![Claim::Custom("k".into(), json!(1))], vec![Claim::Custom("0".into(), json!("aud")), Claim::Sub("x".into())]] {
+                    let c = C15Case { p, key: key.clone(), s: vec![], e, layer, default_parser: dp, class: "non-object-payload".into(), raw_payload: Some(text.to_string()) };
+                    let before = rn.violations_total;
+                    c15_eval(&c, &mut rn);
+                    if rn.violations_total == before {
+                        rn.count("non-object payloads: expectations fail as missing");
+                    }
+                }
+            }
+        }
+    }
+    rn.require("non-object payloads: expectations fail as missing", 300);
+    total.merge(rn);
 
     // ---- histories: one parser, several tokens, different orders: outcome per token must be the fresh-parser outcome
     let nh = if thorough { 5000 } else { 500 };
@@ -829,7 +879,7 @@ pub fn run_c15(tier: &str, seed: u64) -> Report {
             for (pos, (o, _)) in outs.iter().enumerate() {
                 r.evaluations += 1;
                 let k = order[pos];
-                let c = C15Case { p, key: key.clone(), s: specs[k].clone(), e: e.clone(), layer, default_parser: dp, class: "history".into() };
+                let c = C15Case { p, key: key.clone(), s: specs[k].clone(), e: e.clone(), layer, default_parser: dp, class: "history".into(), raw_payload: None };
                 let ok = c15_verdict(&c, &model_object(&specs[k]), o, r, &format!(" [parse #{} of one parser, order {:?}]", pos + 1, order));
                 if ok {
                     r.count("history parses consistent with a fresh parser");
@@ -889,7 +939,7 @@ pub fn run_c15(tier: &str, seed: u64) -> Report {
         for (k, tokv, expv) in [("exp", "2999-01-01T00:00:00+00:00", "2888-01-01T00:00:00+00:00"), ("nbf", "2001-01-01T00:00:00+00:00", "2002-01-01T00:00:00+00:00")] {
             let s = vec![ClaimOp::Set(to_claim(k, &json!(tokv))), ClaimOp::Set(Claim::Custom("n".into(), json!(1)))];
             for (dp, e) in [(true, expv), (false, expv), (true, tokv), (false, tokv)] {
-                let c = C15Case { p, key: key.clone(), s: s.clone(), e: vec![to_claim(k, &json!(e))], layer: Layer::Batteries, default_parser: dp, class: format!("time-claim-expectation key={}", k) };
+                let c = C15Case { p, key: key.clone(), s: s.clone(), e: vec![to_claim(k, &json!(e))], layer: Layer::Batteries, default_parser: dp, class: format!("time-claim-expectation key={}", k), raw_payload: None };
                 c15_eval(&c, &mut r);
             }
         }
@@ -916,7 +966,7 @@ pub fn replay_c15(case: &Value) -> Report {
     r
 }
 
-pub const RULE_C15: &str = "for seeded random token claim sets S (registered string claims, integers, booleans, nested JSON, strings) the expected sets E = {equal, random subset, superset with one absent claim, one value changed (case / trailing space / NUL suffix / type / off-by-one / fraction / negation / extra element; time claims: another instant and the same instant or second spelled differently), one key changed by one character, expected value on a claim that is present as null, integer-vs-float spelling (don't-care)} are registered with check_claim (and, on GenericParser, also through one extend_check_claims call) on GenericParser, PasetoParser::new() and PasetoParser::default() and the authentic token is parsed; oracle = harness-side comparison of S and E: accept iff no discrepancy; a missing-only discrepancy must be reported as Missing(k) for a missing k; an error must name a failing claim. Plus 500 (thorough 5000) histories: one parser processes 8 tokens in 4 orders and every outcome must equal the fresh-parser outcome. Plus sessions in which the expectation for a key is REPLACED on a live parser between parses (check_claim again with another value). Plus PasetoParser::default().check_claim(exp|nbf) as its own class. Token claim keys include path/pointer look-alikes ('a/b' next to a nested a.b, 'https://example.com/role', '~0', 'a[0]'). distinct_nontrivial = distinct (protocol, parser kind, outcome, expectation class, error variant)";
+pub const RULE_C15: &str = "for seeded random token claim sets S (registered string claims, integers, booleans, nested JSON, strings) the expected sets E = {equal, random subset, superset with one absent claim, one value changed (case / trailing space / NUL suffix / one byte longer / extended or shortened by exactly 256, 512, 65536 bytes / type / off-by-one / fraction / negation / extra element; time claims: another instant and the same instant or second spelled differently), one key changed by one character, expected value on a claim that is present as null, integer-vs-float spelling (don't-care)} are registered with check_claim (and, on GenericParser, also through one extend_check_claims call) on GenericParser, PasetoParser::new() and PasetoParser::default() and the authentic token is parsed; oracle = harness-side comparison of S and E: accept iff no discrepancy; a missing-only discrepancy must be reported as Missing(k) for a missing k; an error must name a failing claim. Plus 500 (thorough 5000) histories: one parser processes 8 tokens in 4 orders and every outcome must equal the fresh-parser outcome. Plus sessions in which the expectation for a key is REPLACED on a live parser between parses (check_claim again with another value). Plus PasetoParser::default().check_claim(exp|nbf) as its own class. Plus authentic tokens whose payload is valid JSON but not an object (sealed at the core layer: [], \"aud\", 137, true, null, ...): every expectation must fail. Token claim keys include path/pointer look-alikes ('a/b' next to a nested a.b, 'https://example.com/role', '~0', 'a[0]'). distinct_nontrivial = distinct (protocol, parser kind, outcome, expectation class, error variant)";
 
 // ==========================================================================================
 // C16
@@ -936,6 +986,9 @@ pub struct C16Case {
     /// how the presented token relates to the authentic one
     pub forgery: String,
     pub class: String,
+    /// when set: the token is sealed at the CORE layer around this non-object JSON text (`s` is empty: every claim absent)
+    #[serde(default)]
+    pub raw_payload: Option<String>,
 }
 
 fn behaves(b: &VBehave, v: &Value) -> bool {
@@ -993,7 +1046,11 @@ fn c16_eval(c: &C16Case, r: &mut Report, seed: u64) {
     let replay = || json!({"cmd": "C16", "case": c, "seed": seed});
     let tag = format!("{}/{}{}", c.p.name(), c.layer.name(), if c.default_parser { "-default" } else { "" });
     let ia0 = if c.p.has_assertion() { Some("ia") } else { None };
-    let tok = match generic_seal(c.p, &c.key, &c.s, Some("ftr"), ia0).0 {
+    let sealed = match &c.raw_payload {
+        Some(text) => core_seal(c.p, &c.key, &[0x5a; 32], text, Some("ftr"), ia0).0,
+        None => generic_seal(c.p, &c.key, &c.s, Some("ftr"), ia0).0,
+    };
+    let tok = match sealed {
         Out::Ok(t) => t,
         o => {
             r.inconclusive.push(format!("C16: could not build the token: {}", o.brief()));
@@ -1212,10 +1269,106 @@ pub fn run_c16(tier: &str, seed: u64) -> Report {
                 }
             }
         }
-        let c = C16Case { validators_first, p, key, s, validators, expected, layer, default_parser: dp, forgery, class: "random".into() };
+        let c = C16Case { validators_first, p, key, s, validators, expected, layer, default_parser: dp, forgery, class: "random".into(), raw_payload: None };
         c16_eval(&c, r, seed);
     });
     total.merge(r);
+
+    // ---- authentic tokens whose payload is JSON but NOT an object: every validator must still run (with null) and be honoured
+    let mut rn = Report::new();
+    for &p in &ALL {
+        let key = pools.key(p, 0);
+        for (layer, dp) in [(Layer::Generic, false), (Layer::Batteries, false), (Layer::Batteries, true)] {
+            for (ti, text) in NON_OBJECT_PAYLOADS.iter().enumerate() {
+                if p == P::V1P && ti % 3 != 0 {
+                    continue;
+                }
+                for (vi, behave) in [VBehave::Reject, VBehave::Accept, VBehave::AcceptIfPresent].into_iter().enumerate() {
+                    let reg = if layer == Layer::Generic && (ti + vi) % 2 == 1 { VReg::ExtendOnly } else { VReg::ValidateClaim };
+                    let claim = if vi == 1 { Claim::Custom("k".into(), json!(0)) } else { Claim::Aud("x".into()) };
+                    let c = C16Case { validators_first: false, p, key: key.clone(), s: vec![], validators: vec![VSpec { claim, behave, reg }], expected: vec![], layer, default_parser: dp, forgery: "authentic".into(), class: "non-object-payload".into(), raw_payload: Some(text.to_string()) };
+                    let before = rn.violations_total;
+                    c16_eval(&c, &mut rn, seed);
+                    if rn.violations_total == before {
+                        rn.count("non-object payloads: validators run with null and are honoured");
+                    }
+                }
+            }
+        }
+    }
+    rn.require("non-object payloads: validators run with null and are honoured", 300);
+    total.merge(rn);
+
+    // ---- live parsers: validators are ADDED between parses of one parser object (validate_claim / extend_validation_claims);
+    // after each addition every validator registered so far must run on the next parse and be honoured
+    let nl = if thorough { 4000 } else { 400 };
+    let r = parallel(nl, util::threads(), |i, r| {
+        let mut rng = Rng::new(seed, "c16-live", i as u64);
+        let p = ALL[i % ALL.len()];
+        if p == P::V1P && i % 5 != 0 {
+            return;
+        }
+        let key = pools.key(p, i % pools.count(p));
+        let (layer, dp) = [(Layer::Generic, false), (Layer::Generic, false), (Layer::Batteries, false), (Layer::Batteries, true)][(i / ALL.len()) % 4];
+        let mut s = c15_token_claims(&mut rng, false);
+        if dp {
+            s.push(ClaimOp::Set(Claim::Exp("2999-01-01T00:00:00+00:00".into())));
+        }
+        let sm = model_object(&s);
+        let ia0 = if p.has_assertion() { Some("ia") } else { None };
+        let tok = match generic_seal(p, &key, &s, Some("ftr"), ia0).0 {
+            Out::Ok(t) => t,
+            o => {
+                r.inconclusive.push(format!("C16 live session: could not build the token: {}", o.brief()));
+                return;
+            }
+        };
+        // 1..4 additions; keys: present custom/registered keys and absent ones, each key once; at most the last one rejects
+        let mut keys: Vec<String> = sm.keys().filter(|k| !(dp && (*k == "exp" || *k == "nbf"))).cloned().collect();
+        keys.push(format!("absent{}", i % 7));
+        keys.push("absent-b".into());
+        rng.shuffle(&mut keys);
+        let nadd = 1 + rng.below(keys.len().min(4));
+        let initial = if rng.chance(1, 2) { 1 } else { 0 };
+        let mut specs: Vec<VSpec> = Vec::new();
+        for (j, k) in keys.iter().take(nadd + initial).enumerate() {
+            let last = j + 1 == nadd + initial;
+            let behave = if last && rng.chance(2, 3) { VBehave::Reject } else if rng.chance(1, 3) { VBehave::AcceptIfEq(sm.get(k).cloned().unwrap_or(Value::Null)) } else { VBehave::Accept };
+            let reg = if layer == Layer::Generic && rng.chance(1, 2) { VReg::ExtendOnly } else { VReg::ValidateClaim };
+            let val = sm.get(k).cloned().unwrap_or(json!("x"));
+            let claim = if RESERVED.contains(&k.as_str()) { if val.is_string() { to_claim(k, &val) } else { continue } } else { Claim::Custom(k.clone(), val) };
+            specs.push(VSpec { claim, behave, reg });
+        }
+        if specs.len() <= initial {
+            return;
+        }
+        let cfg = ParserCfg { footer: Some("ftr".into()), assertion: ia0.map(|x| x.to_string()), validators: specs[..initial].to_vec(), default_parser: dp, ..Default::default() };
+        let mut steps = vec![PStep::Parse { token: tok.clone(), key: 0 }];
+        for v in &specs[initial..] {
+            steps.push(PStep::Validate(v.clone()));
+            steps.push(PStep::Parse { token: tok.clone(), key: 0 });
+        }
+        let outs = session(p, layer != Layer::Generic, &[key.clone()], &cfg, &steps);
+        let logs = session_logs_take();
+        let nparse = specs.len() - initial + 1;
+        if outs.len() != nparse || logs.len() != nparse {
+            r.inconclusive.push(format!("C16 live session on {}: {} outcomes / {} logs for {} parses ({})", p.name(), outs.len(), logs.len(), nparse, outs.first().map(|o| o.brief()).unwrap_or_default()));
+            return;
+        }
+        let tag = format!("{}/{}{}", p.name(), layer.name(), if dp { "-default" } else { "" });
+        for j in 0..nparse {
+            r.evaluations += 1;
+            let c = C16Case { validators_first: false, p, key: key.clone(), s: s.clone(), validators: specs[..initial + j].to_vec(), expected: vec![], layer, default_parser: dp, forgery: "authentic".into(), class: "live-parser".into(), raw_payload: None };
+            let replay = json!({"cmd": "C16", "note": "live-parser session (validators added between parses): re-run the check", "protocol": p.name(), "parser": tag, "token_claims": sm, "validators_in_order": specs.iter().map(|v| json!({"key": v.claim.key(), "behaviour": format!("{:?}", v.behave), "via": format!("{:?}", v.reg)})).collect::<Vec<_>>(), "registered_before_first_parse": initial, "parse_number": j + 1});
+            let before = r.violations_total;
+            c16_verdict(&c, &tag, &sm, &outs[j], &logs[j], r, &replay, &format!(" [live parser: parse #{} after {} validator(s) were added between parses]", j + 1, j));
+            if r.violations_total == before {
+                r.count("live-parser parses conform");
+            }
+        }
+    });
+    total.merge(r);
+    total.require("live-parser parses conform", (nl / 2) as u64);
 
     // ---- sequences: one parser, authentic and forged tokens interleaved; verdict per parse as for a fresh parser
     let nh = if thorough { 3000 } else { 300 };
@@ -1257,7 +1410,7 @@ pub fn run_c16(tier: &str, seed: u64) -> Report {
         for (pos, (o, log)) in outs.iter().enumerate() {
             r.evaluations += 1;
             let (_, k, authentic) = &toks[pos];
-            let c = C16Case { validators_first: false, p, key: key.clone(), s: specs[*k].clone(), validators: validators.clone(), expected: vec![], layer, default_parser: dp, forgery: if *authentic { "authentic".into() } else { "bitflip".into() }, class: "sequence".into() };
+            let c = C16Case { validators_first: false, p, key: key.clone(), s: specs[*k].clone(), validators: validators.clone(), expected: vec![], layer, default_parser: dp, forgery: if *authentic { "authentic".into() } else { "bitflip".into() }, class: "sequence".into(), raw_payload: None };
             let before = r.violations_total;
             c16_verdict(&c, &tag, &model_object(&specs[*k]), o, log, r, &json!({"cmd": "C16-seq", "note": "sequence case: re-run the check", "position": pos, "authentic": authentic, "spec": specs[*k]}), &format!(" [parse #{} of one parser]", pos + 1));
             if r.violations_total == before {
@@ -1285,4 +1438,4 @@ pub fn replay_c16(rec: &Value, case: &Value) -> Report {
     r
 }
 
-pub const RULE_C16: &str = "harness validators are static functions that append (key, value) to a thread-local call log and answer from a behaviour table (accept / reject / accept-iff-equal / accept-iff-present). For seeded random token claim sets, 0-3 validators over registered and custom keys (present and absent in the payload) are registered through validate_claim and, on GenericParser, through extend_validation_claims only; parsers: GenericParser, PasetoParser::new(), PasetoParser::default(). Each configuration parses either the authentic token or a forgery (wrong key, wrong footer, wrong assertion, relabelled header, bit flip, truncation). Monitors: no log entry for a forged token; for an authentic token every logged value equals the payload member (null when absent), each key at most once, Ok only if every registered validator ran and accepts, Err only if a validator or expectation fails, and the error stems from a rejecting validator. Plus 300 (thorough 3000) sequences where one parser processes shuffled authentic and forged tokens. distinct_nontrivial = distinct (protocol, parser kind, authentic|forgery kind, outcome, #validators, #rejecting, registration routes)";
+pub const RULE_C16: &str = "harness validators are static functions that append (key, value) to a thread-local call log and answer from a behaviour table (accept / reject / accept-iff-equal / accept-iff-present). For seeded random token claim sets, 0-3 validators over registered and custom keys (present and absent in the payload) are registered through validate_claim and, on GenericParser, through extend_validation_claims only; parsers: GenericParser, PasetoParser::new(), PasetoParser::default(). Each configuration parses either the authentic token or a forgery (wrong key, wrong footer, wrong assertion, relabelled header, bit flip, truncation). Monitors: no log entry for a forged token; for an authentic token every logged value equals the payload member (null when absent), each key at most once, Ok only if every registered validator ran and accepts, Err only if a validator or expectation fails, and the error stems from a rejecting validator. Plus 300 (thorough 3000) sequences where one parser processes shuffled authentic and forged tokens; 400 (thorough 4000) LIVE-parser sessions in which validators are added (validate_claim / extend_validation_claims) between parses of one parser object and every validator registered so far must run and be honoured on the next parse; authentic tokens whose payload is JSON but not an object (sealed at the core layer): validators still run, with null. distinct_nontrivial = distinct (protocol, parser kind, authentic|forgery kind, outcome, #validators, #rejecting, registration routes)";
